@@ -21,6 +21,7 @@ FAMILIES = {
     "var1-nonexport": dict(n_axes=1, layout="intermediate", n_glyphs=12, composites=0.5, nested=True, non_export=3, sparse_glyphs=0.4),
     "var1-mixedglyphs": dict(n_axes=1, layout="onaxis", n_glyphs=10, composites=0.5, mixed_glyphs=0.6),
     "var1-cubic": dict(n_axes=1, layout="onaxis", n_glyphs=8, curves="cubic"),
+    "var2-cubic-sparse": dict(n_axes=2, layout="mixed", n_glyphs=8, curves="cubic", sparse_glyphs=0.4, sparse_layers=1),
     "c06-partial-notdef-mid": dict(n_axes=0, n_glyphs=14, glyph_order="partial", notdef="middle", unicodes="multi", composites=0.4, non_export=2, nested=True),
     "c06-none-notdef-last": dict(n_axes=1, layout="onaxis", n_glyphs=12, glyph_order="none", notdef="last", unicodes="multi"),
     "c06-full-notdef-first": dict(n_axes=0, n_glyphs=12, glyph_order="full", notdef="first", unicodes="multi", non_export=3, composites=0.5, nested=True),
@@ -69,7 +70,7 @@ BY_PROPERTY = {
     "C01": ["var2-diagonal", "var3-diagonal", "static-noorder", "var1-noorder", "var2-mixed-sparse", "var2-partialorder", "var1-nonexport", "var2-nested-xform",
             "var1-mixedglyphs", "var3-mixed", "var1-vertical", "var1-cubic", "kern-many", "kern-divergent", "kern-var1"],
     "C02": ["var1-mixedglyphs", "var1-nonexport", "var2-mixed-sparse", "static-noorder", "var2-partialorder", "kern-many", "kern-var1", "kern-static"],
-    "C03": ["var2-diagonal", "var1-onaxis", "var1-intermediate", "var2-corners", "var2-mixed-sparse", "var3-mixed", "var1-vertical", "var2-nested-xform", "var1-nonexport", "var1-noorder"],
+    "C03": ["var2-diagonal", "var1-cubic", "var2-cubic-sparse", "var1-onaxis", "var1-intermediate", "var2-corners", "var2-mixed-sparse", "var3-mixed", "var1-vertical", "var2-nested-xform", "var1-nonexport", "var1-noorder"],
     "C04": ["var3-diagonal", "var1-onaxis", "var1-intermediate", "var2-corners", "var2-mixed-sparse", "var3-mixed", "var1-vertical", "var1-vertical", "var2-partialorder"],
     "C06": ["c06-partial-notdef-mid", "c06-none-notdef-last", "c06-full-notdef-first", "c06-full-nonotdef", "c06-prodnames", "c06-mixed", "static-noorder", "var1-nonexport", "var2-partialorder"],
     "C08": ["c08-1axis", "c08-2axis", "c08-3axis-int", "c08-1axis"],
